@@ -340,6 +340,31 @@ pub fn generate(tier: Tier, rng: &mut Rng) -> Vec<Case> {
                 }
             }
         }
+        // && / || mixed in one unparenthesised text, 3 and 4 operators (a sub-chain as first,
+        // middle or last operand of the enclosing chain)
+        for n_ops in 3..=4usize {
+            for mask in 0..(1u32 << n_ops) {
+                let ops: Vec<&'static str> = (0..n_ops).map(|i| if mask & (1 << i) != 0 { "&&" } else { "||" }).collect();
+                // precedence: && binds tighter; build the tree the grammar prescribes
+                let mut or_terms: Vec<T> = vec![];
+                let mut cur = T::Id(names[0]);
+                for (i, op) in ops.iter().enumerate() {
+                    if *op == "&&" {
+                        cur = T::Bin("&&", Box::new(cur), Box::new(T::Id(names[i + 1])));
+                    } else {
+                        or_terms.push(cur);
+                        cur = T::Id(names[i + 1]);
+                    }
+                }
+                or_terms.push(cur);
+                let mut it = or_terms.into_iter();
+                let mut t = it.next().unwrap();
+                for x in it {
+                    t = T::Bin("||", Box::new(t), Box::new(x));
+                }
+                push_tree(&mut out, &t, "chain");
+            }
+        }
         for len in 1..=6usize {
             // c1 ? v1 : c2 ? v2 : … : d   and the same with the ladder in the `then` position
             let mut else_ladder = T::Id(names[10]);
